@@ -83,6 +83,9 @@ func runCmpGuard(c *core.Ctx) {
 			if !ok || !sx.IsInterface(mt.Key()) {
 				return
 			}
+			if sx.IsNamed(mt.Key(), "reflect", "Type") {
+				return // pointer-backed: always hashable
+			}
 			nk++
 			construct := fmt.Sprintf("%s: map key %s", load.FnName(fn), describeVal(key))
 			pos := sx.InstrPos(in)
